@@ -822,6 +822,29 @@ def optkeep(ctx, only=None):
                "%s rebuilds the value and takes %s: what earlier builder calls had configured is "
                "reset, so the result depends on the order of the option calls"
                % (p.split("::")[-1], "; ".join(bad)))
+        # OPTSET: a field the setter assigns in place on one path is assigned on every
+        # successful path - otherwise the result keeps what an earlier call had configured
+        # (`max_grouping_len(3).max_grouping_len(0)` must lift the limit again)
+        from flow import result_exits, must_pass
+        stores = {}
+        for b, i, s0 in fa.stmts():
+            if "lhs" not in s0 or s0["lhs"]["l"] != 1 or not s0["lhs"]["p"]:
+                continue
+            path = tuple(e.get("n") for e in s0["lhs"]["p"] if e != "*" and isinstance(e, dict) and "f" in e)
+            if path and all(path):
+                stores.setdefault(path, set()).add(b)
+        if "Result<" in out:
+            exits, _, _ = result_exits(fa)
+        else:
+            exits = {b for b in fa.live_blocks() if fa.term(b)["k"] == "return"}
+        for path, blocks in sorted(stores.items()):
+            okp = bool(exits) and all(must_pass(fa, x, blocks) for x in exits)
+            ctx.ob("OPTSET", "%s|%s|assigned-on-every-successful-path" % (p, ".".join(path)), okp,
+                   "%s:%s" % (f.file, f.line),
+                   "%s assigns `%s` on every successful path" % (p.split("::")[-1], ".".join(path)) if okp else
+                   "%s assigns `%s` on some paths only: on the others the value configured by an "
+                   "earlier call survives, so the result depends on the history of option calls "
+                   "and not just on the arguments of the last one" % (p.split("::")[-1], ".".join(path)))
     ctx.floor("OPTKEEP", "by-value builder methods", n, 2 if only else 6)
 
 
